@@ -31,7 +31,19 @@ type LoadConfig struct {
 
 func buildOverlay(cfg LoadConfig) (map[string][]byte, error) {
 	ov := map[string][]byte{}
-	root := filepath.Join(cfg.HarnessDir, "root")
+	var err error
+	for _, hd := range strings.Split(cfg.HarnessDir, ":") {
+		if hd == "" {
+			continue
+		}
+		if err = overlayFrom(ov, cfg, filepath.Join(hd, "root")); err != nil {
+			break
+		}
+	}
+	return ov, err
+}
+
+func overlayFrom(ov map[string][]byte, cfg LoadConfig, root string) error {
 	err := filepath.Walk(root, func(p string, info os.FileInfo, err error) error {
 		if err != nil {
 			return err
@@ -50,7 +62,7 @@ func buildOverlay(cfg LoadConfig) (map[string][]byte, error) {
 		ov[filepath.Join(cfg.RepoDir, rel)] = b
 		return nil
 	})
-	return ov, err
+	return err
 }
 
 func LoadEngine(cfg LoadConfig) (*Engine, error) {
